@@ -107,8 +107,19 @@ class Repo:
             raise AnalysisError(f'class {name} not found in {rel}')
         return c
 
+    def _canon(self, rel, qual, node):
+        """Locals renamed to the names recorded in spec/roles.json (see canon.py); cached."""
+        if not isinstance(node, (ast.FunctionDef, ast.AsyncFunctionDef)) or os.environ.get('HIDVERIF_NO_CANON'):
+            return node
+        cache = self.__dict__.setdefault('_canon_cache', {})
+        key = (rel, qual)
+        if key not in cache:
+            from .canon import canonicalise
+            cache[key] = canonicalise(node, f'{rel}::{qual}')
+        return cache[key]
+
     def functions(self, rel):
-        return {n.name: n for n in self.module(rel).body
+        return {n.name: self._canon(rel, n.name, n) for n in self.module(rel).body
                 if isinstance(n, (ast.FunctionDef, ast.AsyncFunctionDef))}
 
     def find_func(self, rel, qualname, required=True):
@@ -125,11 +136,11 @@ class Repo:
                     raise AnalysisError(f'{qualname} not found in {rel}')
                 return None
             body = node.body
-        return node
+        return self._canon(rel, qualname, node)
 
     def methods(self, rel, cls):
         c = self.find_class(rel, cls)
-        return {n.name: n for n in c.body
+        return {n.name: self._canon(rel, f'{cls}.{n.name}', n) for n in c.body
                 if isinstance(n, (ast.FunctionDef, ast.AsyncFunctionDef))}
 
     def module_assign(self, rel, name, required=True):
